@@ -79,6 +79,15 @@ def checkLookup (k : Kernel) (q : QLine) : List Finding :=
        orc (r < 0 || others.length != 1 || k.adjHalffaceInCell r.toNat (opp heIn) == some hf) "adjacent_halfface_in_cell applied twice does not return the start")
   | _, _ =>
     match q.name, a with
+    | "lhfhes", hf :: _cnt :: hs =>
+      -- C08: the halfedge list of a halfface as reported; side 1 = reversed list of the opposites of side 0
+      let w := hs.map Int.toNat
+      let f := k.faceAt (eOf hf.toNat)
+      xfl (k.hfHes hf.toNat) w ++
+      (if w == (if hf.toNat % 2 == 0 then f else (f.reverse.map opp)) then [] else
+        [Finding.oracle "C08" s!"halfface {hf}: reported halfedges {showL w}, face definition {showL f}: the odd side must be the reversed list of opposite halfedges"])
+    | "lopphf", [hf, r] =>
+      (if r == (opp hf.toNat : Nat) then [] else [Finding.oracle "C08" s!"opposite_halfface_handle({hf}) = {r}"])
     | "lghv", hf :: _cnt :: vs =>
       xfl (k.hfVerts hf.toNat) (vs.map Int.toNat) ++
       orc ((vs.map Int.toNat) == (k.hfHes hf.toNat).map k.fromV) "not the sources of the halfface's halfedges in order"
